@@ -29,9 +29,9 @@ func (rb *RingBuffer[T]) Push(e T) {
 }
 
 // Current returns the element at the current position.  It returns zero value
-// of T if rb is nil or empty.
+// of T if rb is nil or isn't full yet.
 func (rb *RingBuffer[T]) Current() (e T) {
-	if rb == nil || len(rb.buf) == 0 {
+	if rb == nil || !rb.full {
 		return e
 	}
 
